@@ -28,7 +28,7 @@ def run(ctx):
         for cst in runs:
             r = ctx.model_check("cert", "MC_QuorumCert", "MC_QuorumCert_vector.cfg", constants=cst,
                                 coverage=True, timeout=ctx.pick(600, 1800))
-            ctx.check_coverage(r, ["AddPart", "VerifyPart", "VerifyProof", "NewPart", "DecodeGarbage"], allow_zero=("AppendItem", "VerifyList", "DecodeGarbageList"))
+            ctx.check_coverage(r, ["AddPart", "VerifyPart", "VerifyProof", "Reverify", "NewPart", "DecodeGarbage"], allow_zero=("AppendItem", "VerifyList", "DecodeGarbageList"))
         ctx.exhaustive = True
         # 2. decision table: every subset of own-index signatures for n = 1..7 with <= 1 anomalous slot
         #    (wrong index, non-validator, other decision, forged, unrecoverable), <= 2 for n <= 3/5; proofs of every
